@@ -1,5 +1,7 @@
 import Evl.Lemmas.DispatchGhost
 import Evl.Lemmas.RegistryInv
+import Evl.Generated.Decisions
+import Evl.Generated.DispatchFacts
 /-!
 # C02 — Send's Status and error truthfully account for what the pipelines did
 
@@ -104,6 +106,14 @@ theorem error_iff (ctxDone : Bool) (nC nS thr thrS : Nat) :
     · split at h
       · injection h with h; injection h with _ h; exact h.symm
       · cases h
+
+/-- `getError` above is the source's `Status.getError`: its switch cases, regenerated from broker.go,
+are `len(complete) < threshold` then `len(completeSinks) < thresholdSinks`, in this order; and the
+complete-sinks flag is set from the node's `Type()`. -/
+theorem getError_on_source :
+    Evl.Generated.getErrorCases =
+      [{ l := .lenComplete, op := .lt, r := .threshold }, { l := .lenCompleteSinks, op := .lt, r := .thresholdSinks }] ∧
+    Evl.Generated.dispatchFacts.sinkFlagFromType = true := by decide
 
 /-! ### thresholds (M1): per event type, reject negatives, read back as last set -/
 open Evl.Registry
